@@ -8,6 +8,8 @@ import (
 	"encoding/json"
 	"errors"
 	"fmt"
+	"github.com/sirupsen/logrus"
+	"io"
 	"os"
 	"regexp"
 	"runtime"
@@ -242,6 +244,22 @@ func types() []typeDef {
 						}
 					}
 					_ = ccall.CallConcurrently(p.root, fns...)
+				},
+				func(g, a int) {
+					// the caller's context is cancelled while the functions are still running;
+					// they then return errors
+					ctx, cancel := context.WithCancel(p.root)
+					fns := []ccall.CallConcurrentlyFunc{}
+					for i := 0; i < 2+a%3; i++ {
+						fns = append(fns, func(c context.Context) error { <-c.Done(); return p.errBoom })
+					}
+					if a%2 == 0 {
+						go cancel()
+					} else {
+						go func() { runtime.Gosched(); cancel() }()
+					}
+					_ = ccall.CallConcurrently(ctx, fns...)
+					cancel()
 				},
 			}, nil
 		}},
@@ -484,9 +502,15 @@ func keyedOps(p *prog, rc bool) ([]func(g, a int), func()) {
 		}
 		return nil
 	}
+	// an options slice with spare capacity shared by concurrent constructor calls
+	sharedOpts := append(make([]keyed.Option[int, int], 0, 8), opts...)
+	lg := logrus.New()
+	lg.SetOutput(io.Discard)
+	le := logrus.NewEntry(lg)
 	if !rc {
 		k := keyed.NewKeyed(ctor, opts...)
 		return []func(g, a int){
+				func(g, a int) { keyed.NewKeyedWithLogger(ctor, le, sharedOpts...).GetKeys() },
 				func(g, a int) { k.SetKey(a%3, a%2 == 0) },
 				func(g, a int) { k.RemoveKey(a % 3) },
 				func(g, a int) { k.SyncKeys([]int{a % 3, (a + 1) % 3, a % 3}, a%2 == 0) },
@@ -507,6 +531,7 @@ func keyedOps(p *prog, rc bool) ([]func(g, a int), func()) {
 	var refs sync.Map
 	var nref atomic.Int64
 	return []func(g, a int){
+			func(g, a int) { keyed.NewKeyedRefCountWithLogger(ctor, le, sharedOpts...).GetKeys() },
 			func(g, a int) {
 				ref, _, _ := k.AddKeyRef(a % 3)
 				refs.Store(nref.Add(1), ref)
